@@ -14,6 +14,13 @@
  *   emit <ev>                         pen: 1 = ON_CHANGE (attribute change)
  *                                     term: 1 = ON_RESIZE (set_size), 2 = ON_KEY (emit_key or input_push_bytes), 3 = ON_MOUSE (emit_mouse)
  *   destroy                           unref to zero
+ *   pen <code>                        (pen owner) an operation on the pen that may emit ON_CHANGE, also as action p:<code>:
+ *        b0 | b1      tickit_pen_set_bool_attr(pen, BOLD, v)                (changed(): deferred inside a frozen region)
+ *        c<n>         tickit_pen_set_colour_attr(pen, FG, n)                 (emits at once)
+ *        k<t><ow>     tickit_pen_copy(pen, template t, overwrite ow)          (freeze … thaw)
+ *        a<t>         tickit_pen_copy_attr(pen, template t, FG)              (freeze, set index [emits], RGB8, thaw)
+ *        d<n> | D<n>  tickit_pen_set_colour_attr_desc(pen, FG, "n" | "n#112233")
+ *      templates: 0 {bold=1}  1 {bold=0}  2 {fg=3 #102030}  3 {bold=1, fg=2}  4 {fg=3}
  *
  * Observation: the call log of the operation.
  *   +<h>.<n>.<slot>.<evflags>   handler h entered (its n-th invocation) for the binding of <slot>
@@ -32,8 +39,10 @@
 #define MAXACT  8
 #define MAXSLOT 512
 
-enum { A_BIND, A_UNBIND, A_UNBINDSELF, A_EMIT, A_DESTROY };
-struct action { int kind, a, b, c; };
+enum { A_BIND, A_UNBIND, A_UNBINDSELF, A_EMIT, A_DESTROY, A_PEN };
+#define NTMPL 5
+#define MAXDEPTH 64
+struct action { int kind, a, b, c; char code[8]; };
 struct beh { int defined, ret, nact; struct action act[MAXACT]; };
 struct slot { int h, id, slot; };
 
@@ -48,7 +57,9 @@ static int nslots;
 static int emit_counter;
 static int emit_depth;   /* emissions of the owner in progress */
 static int dropped;      /* the handlers' reference has been dropped */
-static int gone;         /* … and nothing else holds the owner any more (as far as a client can tell) */
+static int gone;
+static int handler_depth;       /* guard of the interpreter against runaway recursion */
+static TickitPen *tmpl[NTMPL];         /* … and nothing else holds the owner any more (as far as a client can tell) */
 static int term_lines, term_cols;
 
 static void out_func(TickitTerm *t, const char *bytes, size_t len, void *user) { (void)t; (void)bytes; (void)len; (void)user; }
@@ -95,14 +106,30 @@ static void do_emit(int ev)
   if(!emit_depth && dropped) gone = 1;
 }
 
+/* a pen operation that may emit ON_CHANGE (see the list at the top) */
+static void do_pen(const char *code)
+{
+  if(owner_kind != 1) return;
+  emit_depth++;
+  int n = atoi(code + 1);
+  switch(code[0]) {
+    case 'b': tickit_pen_set_bool_attr(pen, TICKIT_PEN_BOLD, n != 0); break;
+    case 'c': tickit_pen_set_colour_attr(pen, TICKIT_PEN_FG, n); break;
+    case 'k': { int t = code[1] - '0'; if(t >= 0 && t < NTMPL) tickit_pen_copy(pen, tmpl[t], code[2] == '1'); break; }
+    case 'a': { int t = code[1] - '0'; if(t >= 0 && t < NTMPL) tickit_pen_copy_attr(pen, tmpl[t], TICKIT_PEN_FG); break; }
+    case 'd': { char d[16]; snprintf(d, sizeof d, "%d", n); tickit_pen_set_colour_attr_desc(pen, TICKIT_PEN_FG, d); break; }
+    case 'D': { char d[24]; snprintf(d, sizeof d, "%d#112233", n); tickit_pen_set_colour_attr_desc(pen, TICKIT_PEN_FG, d); break; }
+  }
+  emit_depth--;
+  if(!emit_depth && dropped) gone = 1;
+}
+
 static void do_emit_inner(int ev)
 {
   emit_counter++;
   if(owner_kind == 1) {
     if(ev != 1) return;
-    /* two different routes to run_events(pen, TICKIT_PEN_ON_CHANGE) */
-    if(emit_counter & 1) tickit_pen_set_colour_attr(pen, TICKIT_PEN_FG, emit_counter % 8);
-    else                 tickit_pen_set_bool_attr(pen, TICKIT_PEN_BOLD, (emit_counter >> 1) & 1);
+    tickit_pen_set_colour_attr(pen, TICKIT_PEN_FG, 7);   /* emits at once, frozen or not */
   }
   else {
     if(ev == 1) {
@@ -148,7 +175,8 @@ static int handler(void *owner, TickitEventFlags flags, void *info, void *data)
   else if(info != NULL) obs(" !info");
 
   int ret = 0;
-  if(n < MAXINV && behs[h][n].defined) {
+  handler_depth++;
+  if(n < MAXINV && behs[h][n].defined && handler_depth <= MAXDEPTH) {
     struct beh *b = &behs[h][n];
     ret = b->ret;
     if(!(flags & TICKIT_EV_DESTROY))
@@ -162,10 +190,12 @@ static int handler(void *owner, TickitEventFlags flags, void *info, void *data)
           case A_UNBINDSELF: do_unbind_slot(s->slot); break;
           case A_EMIT:       do_emit(a->a); break;
           case A_DESTROY:    do_destroy(); break;
+          case A_PEN:        do_pen(a->code); break;
         }
         obs(" }");
       }
   }
+  handler_depth--;
   obs(" -%d", ret);
   return ret;
 }
@@ -173,6 +203,7 @@ static int handler(void *owner, TickitEventFlags flags, void *info, void *data)
 static void engine_begin(void)
 {
   owner_kind = 0; pen = NULL; tt = NULL; dead = 0; nslots = 0; emit_counter = 0; emit_depth = 0; dropped = 0; gone = 0;
+  handler_depth = 0;
   memset(behs, 0, sizeof behs);
   memset(invcount, 0, sizeof invcount);
 }
@@ -189,6 +220,7 @@ static int parse_action(const char *t, struct action *a)
   if(strcmp(t, "us") == 0) { a->kind = A_UNBINDSELF; return 1; }
   if(strcmp(t, "d") == 0)  { a->kind = A_DESTROY; return 1; }
   if(sscanf(t, "b:%d:%d:%d", &a->a, &a->b, &a->c) == 3) { a->kind = A_BIND; return 1; }
+  if(strncmp(t, "p:", 2) == 0 && strlen(t) < 2 + sizeof a->code) { a->kind = A_PEN; strcpy(a->code, t + 2); return 1; }
   if(sscanf(t, "u:%d", &a->a) == 1) { a->kind = A_UNBIND; return 1; }
   if(sscanf(t, "e:%d", &a->a) == 1) { a->kind = A_EMIT; return 1; }
   return 0;
@@ -201,6 +233,14 @@ static void engine_op(int argc, char **argv)
     if(strcmp(argv[1], "pen") == 0) {
       owner_kind = 1;
       pen = tickit_pen_new();
+      if(!tmpl[0]) {
+        tmpl[0] = tickit_pen_new_attrs(TICKIT_PEN_BOLD, 1, 0);
+        tmpl[1] = tickit_pen_new_attrs(TICKIT_PEN_BOLD, 0, 0);
+        tmpl[2] = tickit_pen_new_attrs(TICKIT_PEN_FG, 3, 0);
+        tickit_pen_set_colour_attr_rgb8(tmpl[2], TICKIT_PEN_FG, (TickitPenRGB8){ 0x10, 0x20, 0x30 });
+        tmpl[3] = tickit_pen_new_attrs(TICKIT_PEN_BOLD, 1, TICKIT_PEN_FG, 2, 0);
+        tmpl[4] = tickit_pen_new_attrs(TICKIT_PEN_FG, 3, 0);
+      }
     }
     else {
       owner_kind = 2;
@@ -229,5 +269,6 @@ static void engine_op(int argc, char **argv)
   else if(strcmp(op, "unbindid") == 0 && argc == 2) do_unbind_id(atoi(argv[1]));
   else if(strcmp(op, "emit") == 0 && argc == 2)     do_emit(atoi(argv[1]));
   else if(strcmp(op, "destroy") == 0 && argc == 1)  do_destroy();
+  else if(strcmp(op, "pen") == 0 && argc == 2)      do_pen(argv[1]);
   else { h_olen = 0; obs("bad-op"); }
 }
